@@ -3,6 +3,7 @@ package main
 import (
 	"fmt"
 	"strconv"
+	"strings"
 	"time"
 
 	hg "github.com/mosaicnetworks/babble/src/hashgraph"
@@ -129,6 +130,47 @@ func init() {
 		})
 	}
 
+	// "idle:<n>": n validators brought to a quiescent state (everything committed, nobody busy) by a fair
+	// seed and four all-pairs cycles; the window alphabet then lets node n-1 accept work, hand it to one
+	// peer only and fall silent for good.
+	sched.RegisterScenario("idle", func(p []string) *sched.Scenario {
+		n, _ := strconv.Atoi(p[1])
+		sc := &sched.Scenario{Cfg: sim.Config{N: n}}
+		sc.Setup = sched.FairSeed(nodesOf(n), 5*n, 4)
+		cycles := 4
+		if len(p) > 2 {
+			if v, err := strconv.Atoi(p[2]); err == nil {
+				cycles = v
+			}
+		}
+		for cyc := 0; cyc < cycles; cyc++ {
+			for i := 0; i < n; i++ {
+				for j := 0; j < n; j++ {
+					if i != j {
+						sc.Setup = append(sc.Setup, sched.Action{K: "G", A: i, B: j})
+					}
+				}
+			}
+		}
+		// roles: A pulls from S, S pulls from O, S accepts work and may fall silent for good
+		a, s, o := 0, n-1, 1
+		for i := 2; i+2 < len(p); i++ {
+			if p[i] == "roles" {
+				a, _ = strconv.Atoi(p[i+1])
+				s, _ = strconv.Atoi(p[i+2])
+				o = 0
+				for o == a || o == s {
+					o++
+				}
+			}
+		}
+		sc.Alphabet = []sched.Action{{K: "P", A: a, B: s}, {K: "P", A: s, B: o}, {K: "T", A: s}, {K: "S", A: s}, {K: "G", A: a, B: o}}
+		if len(p) > 2 && p[len(p)-1] == "wide" {
+			sc.Alphabet = append(sc.Alphabet, sched.Action{K: "P", A: o, B: s}, sched.Action{K: "G", A: s, B: a}, sched.Action{K: "T", A: a}, sched.Action{K: "P", A: a, B: o})
+		}
+		return sc
+	})
+
 	checks["C06"] = func(args []string) int {
 		th := ev.Tier() == "thorough"
 		mons := []string{"C01"}
@@ -143,7 +185,41 @@ func init() {
 			{Name: "S1 n=3 depth 4 then fair suffix", Items: withSuffix(s1Items("s1:3:0", 4, 2, mons), 40)},
 			{Name: "S1 n=1 depth 8 then monologue suffix", Items: withSuffix(s1Items("s1:1:0", 8, 2, mons), 40)},
 		}
-		ph = append(extra, ph...)
+		// from a quiescent 4-validator network (where idle nodes hold parked heads of others): every role
+		// assignment (A pulls from S, S pulls from O) in which A holds a parked event of S or not
+		idleDepth, wide := 4, ""
+		if th {
+			idleDepth, wide = 6, ":wide"
+		}
+		var idleItems []sched.Item
+		nIdle := 0
+		for _, roles := range [][2]int{{1, 0}, {0, 1}, {0, 3}, {2, 0}} {
+			name := fmt.Sprintf("idle:4:4:roles:%d:%d%s", roles[0], roles[1], wide)
+			nIdle = len(sched.ScenarioByName(name).Alphabet)
+			idleItems = append(idleItems, s2Items(name, []int{0}, idleDepth, nIdle, mons, 40)...)
+		}
+		extra = append(extra, Phase{Name: fmt.Sprintf("S2 from a quiescent 4-validator network, 4 role assignments (A,S): all sequences of length %d over %d actions (A pulls from S, S pulls from a third validator, submission at S, S silent for good, other gossip), then the fair suffix among the rest", idleDepth, nIdle),
+			Items: idleItems})
+		// the standard S1 phases without suffix add nothing for liveness: keep the S3 phases only
+		var keep []Phase
+		for _, p := range ph {
+			if strings.HasPrefix(p.Name, "S1 ") {
+				continue
+			}
+			if !th && (strings.HasPrefix(p.Name, "S3 d<=1 join") || strings.HasPrefix(p.Name, "S3 d<=1 leave") || strings.HasPrefix(p.Name, "S3 d<=1 static4")) {
+				// quick tier: every second deviation of these phases (C01/C10 run them in full)
+				var half []sched.Item
+				for i, it := range p.Items {
+					if i%2 == 0 {
+						half = append(half, it)
+					}
+				}
+				p.Items = half
+				p.Name += " [every second deviation]"
+			}
+			keep = append(keep, p)
+		}
+		ph = append(extra, keep...)
 		b := 200 * time.Second
 		if th {
 			b = 45 * time.Minute
